@@ -187,6 +187,17 @@ def result_obs(res):
             o['p_' + name] = np.asarray(f(test_type='t-test'), float).tolist()
         except Exception as e:
             o['p_' + name + '_error'] = f'{type(e).__name__}: {e}'
+    # every entry point reports the same p-values: Result.test_all against the three single tests (seeded change C06-m5)
+    try:
+        pa = res.test_all(test_type='t-test')
+        for name, got in zip(('pair', 'zero', 'noise'), pa):
+            if 'p_' + name in o and not np.allclose(np.asarray(got, float), np.asarray(o['p_' + name], float),
+                                                   rtol=1e-12, atol=0, equal_nan=True):
+                o['entry_points_disagree'] = (f'Result.test_all p_{name} = {np.asarray(got, float).tolist()} but '
+                                              f'Result.test_{ {"pair": "pairwise"}.get(name, name)} = {o["p_" + name]}')
+    except Exception as e:
+        if not any(k.endswith('_error') for k in o):
+            o['entry_points_disagree'] = f'Result.test_all raised {type(e).__name__}: {e}'
     return o
 
 
@@ -325,6 +336,8 @@ def oracle(c, o):
         if not np.allclose(pp, pp.T, equal_nan=True) or not np.allclose(np.diag(pp), 1):
             return 'bootstrap pairwise p-values are not symmetric with unit diagonal'
         return None
+    if o.get('entry_points_disagree'):
+        return o['entry_points_disagree']
     for k in ('means_error', 'p_pair_error', 'p_zero_error', 'p_noise_error'):
         if k in o:
             return f'{k}: {o[k]}'
